@@ -48,7 +48,11 @@ class FileSystemArtifactStore(SerializedArtifactStore):
         return path
 
     def _get_glob(self, node_id: NodeId) -> t.List[Path]:
-        return list(Path(self._ensure_dir()).glob(f'{node_id}.*'))
+        # The node id is an exact key, it must not be interpreted as a glob pattern or as a prefix
+        directory = Path(self._ensure_dir())
+        paths = [directory / f'{node_id}.{fmt.value}' for fmt in DataFormat]
+
+        return [path for path in paths if path.is_file()]
 
     @dont_use_for_prod
     async def save(self, node_id: NodeId, data: NodeResultT, fmt: DataFormat = DataFormat.PICKLE) -> None:
